@@ -160,17 +160,27 @@ def execute(case):
     try:
         out = apply_expr(sdf, expr, True).stream.sink_to_list()
         ew = elementwise(sdf, expr).stream.sink_to_list()
+        # a second streaming frame on the same source, wired last: it must see every batch as it
+        # was emitted (no expression may write into the batch object it was handed)
+        witness = DataFrame(src, example=ex).stream.sink_to_list()
     except Exception as e:
         return Result([("%s:cannot-build:%s" % (ID, type(e).__name__), "%s: %r" % (expr, e))],
                       nontrivial=True)
     name = (("groupby-" + expr["group"] + ".") if expr["group"] else "") + expr["agg"]
     for k, b in enumerate(bs):
         n0 = len(out)
+        pristine = b.copy()
         try:
             src.emit(b)
         except Exception as e:
             v.append(("%s:%s:raises-%s" % (ID, name, type(e).__name__),
                       "batch %d (%d rows) of cuts %s: %r" % (k, len(b), cuts, e)))
+            break
+        if len(witness) == k + 1 and (list(witness[k].columns) != list(pristine.columns)
+                                      or dc.same(witness[k], pristine)):
+            v.append(("%s:batch-modified-in-place" % ID, "batch %d: another consumer of the same "
+                      "source received columns %s, values %s; emitted was %s" % (
+                          k, list(witness[k].columns), _short(witness[k]), _short(pristine))))
             break
         prefix = pd.concat(bs[:k + 1])
         reach = reaching(prefix, expr)
